@@ -10,9 +10,9 @@ function of the file around it.  The context is propagated down the tree (`Ctx.r
 -/
 namespace CL
 
-theorem fnsOf_bounds (p : Prog Tok) (i : Nat) (h : p.wf = true) :
+theorem fnsOf_bounds_core (p : Prog Tok) (i : Nat) (h : p.wfCore = true) :
     ∀ f ∈ fnsOf p i, i ≤ f.hdr.rng.s ∧ f.hdr.rng.s < f.hdr.rng.e ∧ f.hdr.rng.e ≤ f.body.s ∧
-      f.body.s + 2 ≤ f.body.e ∧ f.body.e ≤ i + p.size := (tinv_of_wf p i h).fb
+      f.body.s + 2 ≤ f.body.e ∧ f.body.e ≤ i + p.size := (tinv_of_wfCore p i h).fb
 
 /-- the sub-forest with functions `F` at token indices `[lo, hi)` inside a file with functions
 `G`; `par` = the innermost function of the file around `[lo, hi)` -/
@@ -129,7 +129,7 @@ theorem Ctx.parent_head {G : List Fn} (N : Nested G) {lo hi : Nat} {f0 : Fn} {FB
 /-- **nesting, at every depth**: inside a file with functions `G`, the parent of every function
 of a well-formed sub-forest is its innermost enclosing function node (`parentsOf`); and the
 functions without parent are the function nodes not inside another one (`topFnsOf`) -/
-theorem parents_prog_ctx : ∀ (p : Prog Tok) (i : Nat), p.wf = true →
+theorem parents_prog_ctx_core : ∀ (p : Prog Tok) (i : Nat), p.wfCore = true →
     ∀ (G : List Fn) (par : Option Fn), Nested G → Ctx G i (i + p.size) (fnsOf p i) par →
     (fnsOf p i).map (parent G) = parentsOf p i par ∧
     (fnsOf p i).filter (fun g => (parent G g).isNone)
@@ -137,17 +137,17 @@ theorem parents_prog_ctx : ∀ (p : Prog Tok) (i : Nat), p.wf = true →
   | .nil, _, _, _, _, _, _ => ⟨rfl, by simp [fnsOf, topFnsOf]⟩
   | .leaf _ rest, i, h, G, par, N, C => by
     have hw := h
-    simp only [Prog.wf, Bool.and_eq_true] at h
-    have hb := fnsOf_bounds rest (i + 1) h.2
+    simp only [Prog.wfCore, Bool.and_eq_true] at h
+    have hb := fnsOf_bounds_core rest (i + 1) h.2
     have C' : Ctx G (i + 1) (i + 1 + rest.size) (fnsOf rest (i + 1)) par := by
       refine C.restrict (by omega) (by omega) (by simp only [Prog.size]; omega)
         (fun f hf => hf) (fun f hf => (hb f hf).1) (fun f hf => .inl hf)
-    exact parents_prog_ctx rest (i + 1) h.2 G par N C'
+    exact parents_prog_ctx_core rest (i + 1) h.2 G par N C'
   | .group _ _ items rest, i, h, G, par, N, C => by
-    simp only [Prog.wf, Bool.and_eq_true] at h
+    simp only [Prog.wfCore, Bool.and_eq_true] at h
     obtain ⟨⟨_, hwi⟩, hwr⟩ := h
-    have hbi := fnsOf_bounds items (i + 1) hwi
-    have hbr := fnsOf_bounds rest (i + items.size + 2) hwr
+    have hbi := fnsOf_bounds_core items (i + 1) hwi
+    have hbr := fnsOf_bounds_core rest (i + items.size + 2) hwr
     simp only [fnsOf, Prog.size] at C
     have CI : Ctx G (i + 1) (i + 1 + items.size) (fnsOf items (i + 1)) par := by
       refine C.restrict (by omega) (by omega) (by omega)
@@ -162,18 +162,18 @@ theorem parents_prog_ctx : ∀ (p : Prog Tok) (i : Nat), p.wf = true →
       rcases List.mem_append.mp hf with hf | hf
       · have := hbi f hf; exact .inr (.inl (by omega))
       · exact .inl hf
-    obtain ⟨a1, a2⟩ := parents_prog_ctx items (i + 1) hwi G par N CI
-    obtain ⟨b1, b2⟩ := parents_prog_ctx rest (i + items.size + 2) hwr G par N CR
+    obtain ⟨a1, a2⟩ := parents_prog_ctx_core items (i + 1) hwi G par N CI
+    obtain ⟨b1, b2⟩ := parents_prog_ctx_core rest (i + items.size + 2) hwr G par N CR
     simp only [fnsOf, parentsOf, topFnsOf, List.map_append, List.filter_append, a1, a2, b1, b2]
     refine ⟨trivial, ?_⟩
     cases par <;> simp
   | .fn hdr k gap _ _ body rest, i, h, G, par, N, C => by
     have hw := h
-    simp only [Prog.wf, Bool.and_eq_true, decide_eq_true_eq] at h
-    obtain ⟨⟨⟨⟨⟨⟨⟨⟨⟨⟨hsl, hnf⟩, hwh⟩, hk⟩, hnm⟩, hgap⟩, hop⟩, hcl⟩, hwb⟩, hadj⟩, hwr⟩ := h
+    simp only [Prog.wfCore, Bool.and_eq_true, decide_eq_true_eq] at h
+    obtain ⟨⟨⟨⟨⟨⟨⟨⟨⟨hsl, hnf⟩, hwh⟩, hk⟩, hnm⟩, hgap⟩, hop⟩, hcl⟩, hwb⟩, hwr⟩ := h
     have hpos := Prog.size_pos_of_startsWithLeaf hsl
-    have hbb := fnsOf_bounds body (i + hdr.size + gap.length + 1) hwb
-    have hbr := fnsOf_bounds rest (i + hdr.size + gap.length + body.size + 2) hwr
+    have hbb := fnsOf_bounds_core body (i + hdr.size + gap.length + 1) hwb
+    have hbr := fnsOf_bounds_core rest (i + hdr.size + gap.length + body.size + 2) hwr
     simp only [fnsOf, Prog.size] at C
     have hpar := C.parent_head N rfl (by simp only; omega) (by simp only; omega)
       (fun f hf => by have := hbb f hf; omega) (fun f hf => by have := hbr f hf; omega)
@@ -194,21 +194,40 @@ theorem parents_prog_ctx : ∀ (p : Prog Tok) (i : Nat), p.wf = true →
       · rcases List.mem_append.mp hf with hf | hf
         · have := hbb f hf; exact .inr (.inl (by omega))
         · exact .inl hf
-    obtain ⟨a1, a2⟩ := parents_prog_ctx body _ hwb G _ N CB
-    obtain ⟨b1, b2⟩ := parents_prog_ctx rest _ hwr G par N CR
+    obtain ⟨a1, a2⟩ := parents_prog_ctx_core body _ hwb G _ N CB
+    obtain ⟨b1, b2⟩ := parents_prog_ctx_core rest _ hwr G par N CR
     simp only [fnsOf, parentsOf, topFnsOf, List.map_cons, List.map_append, List.filter_cons,
       List.filter_append, a1, a2, b1, b2, hpar]
     refine ⟨trivial, ?_⟩
     cases par <;> simp
 
 /-- **nesting of a whole file**: `parent` is the innermost enclosing function node -/
-theorem parents_prog {p : Prog Tok} (h : p.wf = true) (N : Nested p.fns) :
+theorem parents_prog_core {p : Prog Tok} (h : p.wfCore = true) (N : Nested p.fns) :
     p.fns.map (parent p.fns) = parentsOf p 0 none :=
-  (parents_prog_ctx p 0 h p.fns none N (Ctx.top _ _)).1
+  (parents_prog_ctx_core p 0 h p.fns none N (Ctx.top _ _)).1
 
 /-- the top-level functions of a whole file are the function nodes not inside another one -/
-theorem topLevel_prog {p : Prog Tok} (h : p.wf = true) (N : Nested p.fns) :
+theorem topLevel_prog_core {p : Prog Tok} (h : p.wfCore = true) (N : Nested p.fns) :
     topLevel p.fns = topFnsOf p 0 :=
-  (parents_prog_ctx p 0 h p.fns none N (Ctx.top _ _)).2
+  (parents_prog_ctx_core p 0 h p.fns none N (Ctx.top _ _)).2
+
+/-! ## the same for `wf` forests (corollaries; `noAdj` is not needed for the nesting) -/
+
+theorem fnsOf_bounds (p : Prog Tok) (i : Nat) (h : p.wf = true) :
+    ∀ f ∈ fnsOf p i, i ≤ f.hdr.rng.s ∧ f.hdr.rng.s < f.hdr.rng.e ∧ f.hdr.rng.e ≤ f.body.s ∧
+      f.body.s + 2 ≤ f.body.e ∧ f.body.e ≤ i + p.size := fnsOf_bounds_core p i ((Prog.wf_iff p).mp h).1
+
+theorem parents_prog_ctx (p : Prog Tok) (i : Nat) (h : p.wf = true)
+    (G : List Fn) (par : Option Fn) (N : Nested G) (C : Ctx G i (i + p.size) (fnsOf p i) par) :
+    (fnsOf p i).map (parent G) = parentsOf p i par ∧
+    (fnsOf p i).filter (fun g => (parent G g).isNone)
+      = if par.isNone then topFnsOf p i else [] :=
+  parents_prog_ctx_core p i ((Prog.wf_iff p).mp h).1 G par N C
+
+theorem parents_prog {p : Prog Tok} (h : p.wf = true) (N : Nested p.fns) :
+    p.fns.map (parent p.fns) = parentsOf p 0 none := parents_prog_core ((Prog.wf_iff p).mp h).1 N
+
+theorem topLevel_prog {p : Prog Tok} (h : p.wf = true) (N : Nested p.fns) :
+    topLevel p.fns = topFnsOf p 0 := topLevel_prog_core ((Prog.wf_iff p).mp h).1 N
 
 end CL
